@@ -560,11 +560,114 @@ Proof.
     + unfold unreg_key. apply filter_ext_in. intros [k' t'] Hi. simpl. unfold nin, mem. simpl.
       destruct (rg_ent _ H _ _ Hi) as (_ & B & _).
       destruct (Nat.eqb_spec k' (t_key tr)); destruct (Nat.eqb_spec t' t); simpl; auto.
-      * exfalso. apply n. subst k'. rewrite Htk in Hi. eapply reg_key_inj; eauto.
-      * exfalso. apply n. subst t'. fold tr in B. congruence.
+      * exfalso. apply n. rewrite e, Htk in Hi. exact (reg_key_inj _ _ _ _ H Hi Hrg).
+      * exfalso. apply n. rewrite e in B. fold tr in B. congruence.
     + symmetry. apply filter_id. auto.
   - intros t'. unfold rm_res. fold t. fold tr. destruct (rem s (t_subs tr)); simpl; [|tauto].
     intros [<-|[]]. fold tr. rewrite Htk. auto.
   - unfold rm_res. fold t. fold tr. destruct (rem s (t_subs tr)); simpl; constructor; [simpl; tauto|constructor].
   - unfold rm_res. fold t. fold tr. destruct (rem s (t_subs tr)); simpl; auto. fold tr. destruct (t_init tr); auto.
+Qed.
+
+Lemma RM_detach_locked : forall st t st' r, RG st -> In (t_key (trigs st t), t) (reg st) ->
+  detach_locked st t = (st', r) -> RM st st' r.
+Proof.
+  intros st t st' r H Hreg Hd. pose proof (detach_locked_spec _ _ _ _ H Hreg Hd) as S. simpl in S.
+  destruct S as (-> & Hr & Ht & Hsf & Hsub & Hby & Hlog).
+  set (l := t_subs (trigs st t)) in *.
+  assert (Hl : forall s, In s l -> In s (byid st) /\ s_tid (subs st s) = t) by (intros s Hi; apply (rg_tsubs _ H _ _ Hi)).
+  constructor; simpl; auto.
+  - intros s Hi. destruct (Hl s Hi) as [A _]. split; auto. apply (rg_byid _ H s A).
+  - apply (rg_nd_tsubs _ H).
+  - rewrite Hlog, map_rev. auto.
+  - intros t'. rewrite Ht. destruct (Nat.eq_dec t' t) as [->|Hne].
+    + rewrite upd_same. simpl. fold l. symmetry.
+      assert (forall m, (forall x, In x m -> In x l) -> filter (nin l) m = []).
+      { induction m; simpl; intros; auto. assert (nin l a = false).
+        { unfold nin. apply negb_false_iff. apply mem_In. auto. } rewrite H1. auto. }
+      apply H0; auto.
+    + rewrite upd_other by auto. symmetry. apply filter_id. intros y Hy. apply nin_true. intro Hil.
+      apply Hne. destruct (Hl y Hil) as [_ <-]. symmetry. apply (rg_tsubs _ H _ _ Hy).
+  - intros t'. rewrite Ht. destruct (Nat.eq_dec t' t) as [->|Hne].
+    + rewrite upd_same. unfold trg_rest_eq; simpl; repeat split; auto.
+    + rewrite upd_other by auto. apply trg_rest_refl.
+  - rewrite Hr. unfold unreg_key. apply filter_ext_in. intros [k' t'] Hi. simpl. unfold nin, mem. simpl.
+    destruct (rg_ent _ H _ _ Hi) as (_ & B & _).
+    destruct (Nat.eqb_spec k' (t_key (trigs st t))); destruct (Nat.eqb_spec t' t); simpl; auto.
+    + exfalso. apply n. rewrite e in Hi. exact (reg_key_inj _ _ _ _ H Hi Hreg).
+    + exfalso. apply n. rewrite e in B. congruence.
+  - intros t' [<-|[]]. auto.
+  - constructor; [simpl; tauto|constructor].
+  - destruct (t_init (trigs st t)); auto.
+Qed.
+
+Lemma mem_app : forall x a b, mem x (a ++ b) = mem x a || mem x b.
+Proof. unfold mem; intros; apply existsb_app. Qed.
+
+Lemma NoDup_app2 : forall (a b : list nat), NoDup a -> NoDup b -> (forall x, In x b -> ~ In x a) -> NoDup (a ++ b).
+Proof.
+  induction a; simpl; intros; auto. inversion H; subst. constructor.
+  - rewrite in_app_iff. intros [?|?]; [tauto|]. apply (H1 a); simpl; auto.
+  - apply IHa; auto. intros x Hx Hi. apply (H1 x); simpl; auto.
+Qed.
+
+Lemma RM_trans : forall a b c r1 r2, RM a b r1 -> RM b c r2 -> RM a c (rm_add r1 r2).
+Proof.
+  intros a b c r1 r2 A B.
+  assert (Hdis : forall s, In s (rr_close r2) -> ~ In s (rr_close r1)).
+  { intros s Hi. destruct (rm_close_in _ _ _ B s Hi) as [Hb _]. rewrite (rm_byid _ _ _ A) in Hb.
+    apply filter_In in Hb. destruct Hb as [_ Hb]. apply nin_true in Hb. auto. }
+  assert (Hdisc : forall t, In t (rr_cancel r2) -> ~ In t (rr_cancel r1)).
+  { intros t Hi. pose proof (rm_cancel_in _ _ _ B t Hi) as Hb. rewrite (rm_reg _ _ _ A) in Hb.
+    apply filter_In in Hb. destruct Hb as [_ Hb]. simpl in Hb. apply nin_true in Hb. auto. }
+  constructor; simpl.
+  - eapply sf_trans; [apply (rm_frame _ _ _ A)|apply (rm_frame _ _ _ B)].
+  - intros s Hi. apply in_app_iff in Hi. destruct Hi as [Hi|Hi]; [apply (rm_close_in _ _ _ A s Hi)|].
+    destruct (rm_close_in _ _ _ B s Hi) as [Hb Hr]. rewrite (rm_byid _ _ _ A) in Hb. apply filter_In in Hb.
+    destruct Hb as [Hb Hn]. split; auto. rewrite (rm_subs _ _ _ A) in Hr. unfold nin in Hn. apply negb_true_iff in Hn.
+    rewrite Hn in Hr. auto.
+  - apply NoDup_app2; [apply (rm_close_nd _ _ _ A)|apply (rm_close_nd _ _ _ B)|auto].
+  - rewrite app_length, (rm_n _ _ _ A), (rm_n _ _ _ B). auto.
+  - intros s. rewrite (rm_subs _ _ _ B), (rm_subs _ _ _ A), mem_app.
+    destruct (mem s (rr_close r2)) eqn:E2; destruct (mem s (rr_close r1)) eqn:E1; simpl; auto.
+  - rewrite (rm_log _ _ _ B), (rm_log _ _ _ A), rev_app_distr, map_app, app_assoc. auto.
+  - rewrite (rm_byid _ _ _ B), (rm_byid _ _ _ A), filter_filter. apply filter_ext. intros x. rewrite nin_app. auto.
+  - intros t. rewrite (rm_tsubs _ _ _ B), (rm_tsubs _ _ _ A), filter_filter. apply filter_ext. intros x. rewrite nin_app. auto.
+  - intros t. destruct (rm_tother _ _ _ A t) as (?&?&?&?&?&?&?). destruct (rm_tother _ _ _ B t) as (?&?&?&?&?&?&?).
+    unfold trg_rest_eq; repeat split; congruence.
+  - rewrite (rm_reg _ _ _ B), (rm_reg _ _ _ A), filter_filter. apply filter_ext. intros x. rewrite nin_app. auto.
+  - intros t Hi. apply in_app_iff in Hi. destruct Hi as [Hi|Hi]; [apply (rm_cancel_in _ _ _ A t Hi)|].
+    pose proof (rm_cancel_in _ _ _ B t Hi) as Hb. rewrite (rm_reg _ _ _ A) in Hb. apply filter_In in Hb.
+    destruct (rm_tother _ _ _ A t) as (Hk & _). rewrite Hk in Hb. tauto.
+  - apply NoDup_app2; [apply (rm_cancel_nd _ _ _ A)|apply (rm_cancel_nd _ _ _ B)|auto].
+  - rewrite filter_app, app_length, (rm_dec _ _ _ A), (rm_dec _ _ _ B). f_equal. f_equal. apply filter_ext.
+    intros t. destruct (rm_tother _ _ _ A t) as (_ & Hi & _). auto.
+Qed.
+
+Lemma RM_remove_many : forall l st st' r, RG st -> remove_many st l = (st', r) -> RM st st' r.
+Proof.
+  induction l; simpl; intros.
+  - inversion H0; subst. apply RM_id.
+  - destruct (remove_locked st a) as [st1 r1] eqn:E1. destruct (remove_many st1 l) as [st2 r2] eqn:E2.
+    inversion H0; subst. eapply RM_trans; [eapply RM_remove_locked; eauto|].
+    eapply IHl; [|eauto]. eapply RG_remove_locked; eauto.
+Qed.
+
+Lemma RM_detach_many : forall l st st' r, RG st ->
+  (forall t, In t l -> In t (map snd (reg st))) -> NoDup l ->
+  detach_many st l = (st', r) -> RM st st' r.
+Proof.
+  induction l as [|a l]; simpl; intros st st' r H Hall Hnd Hd.
+  - inversion Hd; subst. apply RM_id.
+  - destruct (detach_locked st a) as [st1 r1] eqn:E1. destruct (detach_many st1 l) as [st2 r2] eqn:E2.
+    inversion Hd; subst; clear Hd. inversion Hnd; subst.
+    assert (Hreg : In (t_key (trigs st a), a) (reg st)).
+    { specialize (Hall a (or_introl eq_refl)). apply in_map_iff in Hall. destruct Hall as [[k t] [Hs Hi]]. simpl in Hs. subst t.
+      destruct (rg_ent _ H _ _ Hi) as (_ & B & _). rewrite B. exact Hi. }
+    pose proof (RM_detach_locked _ _ _ _ H Hreg E1) as R1.
+    eapply RM_trans; [exact R1|]. eapply IHl; [eapply RG_detach_locked; eauto| |auto|exact E2].
+    intros t Ht. specialize (Hall t (or_intror Ht)). apply in_map_iff in Hall. destruct Hall as [[k t'] [Hs Hi]]. simpl in Hs. subst t'.
+    apply in_map_iff. exists (k, t). split; auto. rewrite (rm_reg _ _ _ R1). apply filter_In. split; auto. simpl.
+    apply nin_true. pose proof (detach_locked_spec _ _ _ _ H Hreg E1) as S. simpl in S. destruct S as (-> & _). simpl.
+    intros [<-|[]]. tauto.
 Qed.
